@@ -125,5 +125,5 @@ class AnnotatedState:
         if isinstance(indices, slice):
             return AnnotatedState(self.__s[indices])
         if isinstance(indices, int):
-            return self.__s[indices]
+            return list(self.__s[indices])
         raise TypeError("Subscript should either be int or slice.")
